@@ -2,6 +2,7 @@
 import pyModeS as pms
 from ref import frames, gillham
 from vlib import variants
+from vlib import volume
 from vlib.core import Leg, call
 
 PROPERTY = "C07"
@@ -10,7 +11,7 @@ RULE = ("all 8192 13-bit codes through common.altitude (exhaustive), each code e
         "with random contexts; oracle: Q=1 -> 25N-1000, Q=0 -> inverse of a Gillham *encoder* over -1200..126700 ft (1280 codes) else None, "
         "M=1 -> |alt - 3.28084 N| < 1, zero -> None, GNSS height -> 3.28084 N; results must not depend on the context. "
         "non-trivial = Q=0 or M=1 codes and illegal Gillham patterns (distinct by code and carrier)"
-        ' Also: the common helpers called on the same string before the judged decoder and every call made twice (call history), one constant context per carrier so that consecutive frames differ in the field only, 937 real airborne-position frames (leg corpus).')
+        ' Also: the common helpers called on the same string before the judged decoder and every call made twice (call history), one constant context per carrier so that consecutive frames differ in the field only, 937 real airborne-position frames (leg corpus), more than 2^20 distinct frames in a row in one process (leg volume).')
 ASSUMPTIONS = ["Gillham table produced by ref/gillham.py's encoder (Annex 10 reflected-binary 500 ft + 100 ft sub-code)",
                "metric altitudes are judged to < 1 ft because the decoder truncates the converted value"]
 
@@ -173,7 +174,27 @@ def chk_corpus(case, note):
     return None
 
 
+
+# ---------------------------------------------------------------- volume: one process, very many distinct frames
+_VOL_EXP = {}
+
+
+def vol_step(a, b, k):
+    df = (0, 4, 16, 20)[a & 3]
+    code = (a >> 2) & 8191
+    n = 56 if df in (0, 4) else 112
+    body = (((a >> 15) & 16383) << 13) | code
+    if n == 112:
+        body = (body << 56) | (b >> 8)
+    par = (a >> 29) & 0xFFFFFF           # field decoders do not look at the parity field: any 24 bits
+    msg = "%0*X" % (n // 4, (df << (n - 5)) | (body << 24) | par)
+    if a & (1 << 60):
+        msg = msg.lower()
+    return judge(call(pms.common.altcode, msg), code, "common.altcode(%s)" % msg)
+
+
 LEGS = [
+    volume.leg(vol_step, 1100000, 2400000, "1.1 million (thorough: 2.4 million per process) distinct DF0/4/16/20 frames through altcode() in one process"),
     Leg("corpus", chk_corpus, enum=enum_corpus, exhaustive=True, doc="937 real airborne position frames: library altitude agrees with the reference table and re-encodes to the transmitted field"),
     Leg("code13", chk_code13, enum=enum_code13, exhaustive=True, doc="all 8192 codes through common.altitude"),
     Leg("carriers", chk_carriers, enum=enum_carriers, exhaustive=True, doc="all 8192 codes x DF0/4/16/20 x random contexts (altcode, surv.altitude)"),
